@@ -78,10 +78,10 @@ def prepare(prop, theorems, tier='quick', regen=None):
             cur = None
             text = out.replace('\n  ', ' ').replace('\n ', ' ')
             for line in text.split('\n'):
-                m = re.match(r"'Bycycle\.(\w+)' depends on axioms: \[(.*)\]", line.strip())
+                m = re.match(r"'Bycycle\.([\w.]+)' depends on axioms: \[(.*)\]", line.strip())
                 if m:
                     res['axioms'][m.group(1)] = [a.strip() for a in m.group(2).split(',') if a.strip()]
-                m = re.match(r"'Bycycle\.(\w+)' does not depend on any axioms", line.strip())
+                m = re.match(r"'Bycycle\.([\w.]+)' does not depend on any axioms", line.strip())
                 if m:
                     res['axioms'][m.group(1)] = []
             for t in theorems:
